@@ -4,7 +4,7 @@ _A = ['op_literal', 'op_drop', 'op_drop_n', 'op_dup', 'op_loop', 'op_jump_if_fal
       'op_push_handler', 'op_pop_handler', 'op_check_handler', 'op_continue_unwind', 'op_get_error', 'op_raise',
       'op_invoke', 'invoke', 'op_super_invoke', 'op_get_super', 'bind_method', 'call_method', 'invoke_from_class',
       'op_get_prop_by_name', 'op_set_prop_by_name', 'op_get_prop', 'op_set_prop', 'op_channel', 'op_buffered_channel',
-      'op_get_local', 'op_set_local', 'op_box', 'op_empty_box', 'op_fill_box', 'op_get_box', 'op_set_box', 'op_get_capture', 'op_set_capture', 'op_list', 'op_tuple']
+      'op_get_local', 'op_set_local', 'op_box', 'op_empty_box', 'op_fill_box', 'op_get_box', 'op_set_box', 'op_get_capture', 'op_set_capture', 'op_list', 'op_tuple', 'op_closure']
 
 UNIT = dict(
   name='ops',
@@ -74,6 +74,14 @@ UNIT = dict(
     # R4: Option::or_else with a closure that captures &mut self
     ('R4', 'Vm::op_send', dict(pat=r'(\w+)\.or_else\(\|\|\s*self\.fiber\.get_runnable\(\)\)', rep=r'(match \1 { Some(verif_w) => Some(verif_w), None => self.fiber.get_runnable() })', regex=True, optional=True)),
     ('R4', 'Vm::op_receive', dict(pat=r'(\w+)\.or_else\(\|\|\s*self\.fiber\.get_runnable\(\)\)', rep=r'(match \1 { Some(verif_w) => Some(verif_w), None => self.fiber.get_runnable() })', regex=True, optional=True)),
+    # ---- op_closure (C02): the iterator chain becomes the loop it runs (R13m); decode / frame slot / capture table through the model (R6, R9) ----
+    ('R13m', 'Vm::op_closure'),
+    ('R6', 'Vm::op_closure', dict(pat='let capture_index: CaptureIndex = mem::transmute(self.read_short());', rep='let capture_index: CaptureIndex = self.read_capture_index();', count=1)),
+    ('R9', 'Vm::op_closure', dict(pat=r'\(\*self\.fiber\.stack_start\(\)\.offset\((\w+) as isize\)\)\s*\.to_obj\(\)\s*\.to_box\(\)', rep=r'self.fiber.frame_slot_get(\1 as isize).to_obj().to_box()', regex=True, count=1)),
+    ('R9', 'Vm::op_closure', dict(pat='self.fiber.captures().get_capture(index as usize)', rep='self.capture_box_get(self.fiber.captures(), index as usize)', count=1)),
+    ('R6', 'Vm::op_closure', dict(pat='ObjRef<LyBox>', rep='BoxObj', count=2)),
+    ('R9', 'Vm::op_closure', dict(pat='let captures = Captures::new(self.manage(&*captures));', rep='let captures = self.manage_captures(&captures);', count=1)),
+    ('R9', 'Vm::op_closure', dict(pat='self.manage_obj(Closure::new(fun, captures))', rep='self.manage_closure(fun, captures)', count=1)),
     # ---- list / tuple literals: the argument slice aliases the stack through a raw pointer; the model copies it at the same moment ----
     ('R9', 'Vm::op_list', dict(pat='let args = self.fiber.stack_slice(arg_count);', rep='let verif_args = self.fiber.stack_copy(arg_count);\n    let args: &[Value] = verif_args.as_slice();', count=1)),
     ('R9', 'Vm::op_tuple', dict(pat='let args = self.fiber.stack_slice(arg_count);', rep='let verif_args = self.fiber.stack_copy(arg_count);\n    let args: &[Value] = verif_args.as_slice();', count=1)),
